@@ -289,12 +289,72 @@ fn poll_auth(f: &mut AuthFut) -> Poll<Result<Response<Bytes>, std::convert::Infa
 }
 
 pub fn replay_auth(a: &Args) -> i32 {
-    let rows: Vec<Value> =
+    let tables: Value =
         serde_json::from_str(&std::fs::read_to_string(a.str("table", "")).expect("table")).unwrap();
+    let rows: Vec<Value> = tables["allowlist"].as_array().unwrap().clone();
     let behaviours: Vec<Value> =
         serde_json::from_str(&std::fs::read_to_string(a.str("file", "")).expect("behaviours")).unwrap();
     let mut mismatches = Vec::new();
     let mut evaluations = 0u64;
+    // what else a request may carry: every inbound request has the connection's origin and the
+    // direction attached
+    let with_extra = |mut req: Request<Bytes>, extra: &str| -> Request<Bytes> {
+        if extra.contains("origin-in") {
+            req = req.with_extension(anemo::ConnectionOrigin::Inbound);
+        }
+        if extra.contains("origin-out") {
+            req = req.with_extension(anemo::ConnectionOrigin::Outbound);
+        }
+        if extra.contains("direction-in") {
+            req = req.with_extension(anemo::Direction::Inbound);
+        }
+        if extra.contains("direction-out") {
+            req = req.with_extension(anemo::Direction::Outbound);
+        }
+        req
+    };
+    // stacked layers and extra extensions
+    for (ti, table) in ["auth_stack", "auth_extra"].iter().enumerate() {
+        for (ri, row) in tables[*table].as_array().unwrap().iter().enumerate() {
+            ID_POS.store(ri * 3 + ti, std::sync::atomic::Ordering::Relaxed);
+            evaluations += 1;
+            let ids = |v: &Value| -> Vec<PeerId> { v.as_array().unwrap().iter().map(|x| peer_id(x.as_u64().unwrap())).collect() };
+            let sender = row["sender"].as_u64().unwrap();
+            let want = row["verdict"].as_str().unwrap();
+            let rec = Recorder::default();
+            let rid = 500 + ri as u64;
+            let mut req = Request::new(Bytes::from(format!("payload-{rid}"))).with_header("rid", rid.to_string());
+            if sender != 0 {
+                req = req.with_extension(peer_id(sender));
+            }
+            req = with_extra(req, row["extra"].as_str().unwrap());
+            let mut f: AuthFut = if *table == "auth_stack" {
+                let inner = RequireAuthorizationLayer::new(AllowedPeers::new(ids(&row["inner"]))).layer(rec.clone());
+                let mut svc = RequireAuthorizationLayer::new(AllowedPeers::new(ids(&row["outer"]))).layer(inner);
+                Box::pin(svc.call(req))
+            } else {
+                let mut svc = RequireAuthorizationLayer::new(AllowedPeers::new(ids(&row["allow"]))).layer(rec.clone());
+                Box::pin(svc.call(req))
+            };
+            let res = match poll_auth(&mut f) {
+                Poll::Ready(Ok(r)) => r,
+                _ => {
+                    mismatches.push(json!({"row": row, "what": "response not ready"}));
+                    continue;
+                }
+            };
+            let invoked = rec.invoked.lock().unwrap().contains(&rid);
+            let got = match (res.status(), invoked) {
+                (StatusCode::Success, true) if res.headers().get("from").map(|s| s.as_str()) == Some("inner") => "pass",
+                (StatusCode::NotFound, false) if res.body().is_empty() => "NotFound",
+                (StatusCode::InternalServerError, false) if res.body().is_empty() => "InternalServerError",
+                _ => "other",
+            };
+            if got != want && mismatches.len() < 5 {
+                mismatches.push(json!({"table": table, "row": row, "got": got, "status": res.status().to_u16(), "invoked": invoked}));
+            }
+        }
+    }
     // allow-list table, each row through a fresh layer and again through a clone
     for row in &rows {
         let allow: Vec<PeerId> = row["allow"].as_array().unwrap().iter().map(|x| peer_id(x.as_u64().unwrap())).collect();
@@ -579,6 +639,104 @@ pub fn replay_rate(a: &Args) -> i32 {
             lines.push(json!({"ev": "end", "admitted": n_adm, "requests": per_key * keys,
                               "elapsed_us": epoch.elapsed().as_micros() as u64}));
             evaluations += per_key * keys;
+        }
+    }
+    // first contact: every request of a never-seen peer arrives at the same instant on a
+    // multi-thread runtime (where per-peer state is created); with a 1000 s period exactly
+    // min(burst, requests) of each peer's requests may get through
+    for k in 0..a.u64("bursts", 20) {
+        run_id += 1;
+        let b = 1 + (k % 3) as u32;
+        let period_us = 1_000_000_000u64;
+        let quota = governor::Quota::with_period(std::time::Duration::from_micros(period_us)).unwrap()
+            .allow_burst(std::num::NonZeroU32::new(b).unwrap());
+        let counting = Counting::default();
+        let layer = RateLimitLayer::new(quota, RateWaitMode::ReturnError);
+        let epoch = std::time::Instant::now();
+        ID_POS.store((k as usize) * 5 + 3, std::sync::atomic::Ordering::Relaxed);
+        let tasks = 8u64;
+        lines.push(json!({"ev": "reset", "run": run_id, "period_us": period_us, "burst": b, "mode": "ReturnError", "per_key": tasks / 2}));
+        let barrier = Arc::new(tokio::sync::Barrier::new(tasks as usize));
+        let results: Vec<(u64, u64, u128, bool)> = rt.block_on(async {
+            let mut hs = Vec::new();
+            for i in 0..tasks {
+                let mut svc = layer.layer(counting.clone());
+                let barrier = barrier.clone();
+                hs.push(tokio::spawn(async move {
+                    let key = 1 + i % 2;
+                    let rid = key * 1000 + i;
+                    barrier.wait().await;
+                    let lo = epoch.elapsed().as_micros();
+                    let res = svc.call(request(rid, key)).await;
+                    (key, rid, lo, res.is_ok())
+                }));
+            }
+            let mut out = Vec::new();
+            for h in hs {
+                out.push(h.await.unwrap());
+            }
+            out
+        });
+        let reached = counting.reached.lock().unwrap().clone();
+        let mut adm: Vec<Value> = Vec::new();
+        for key in 1..=2u64 {
+            let n = results.iter().filter(|r| r.0 == key && r.3).count() as u64;
+            let want = (b as u64).min(tasks / 2);
+            if n != want {
+                mismatches.push(json!({"what": format!("simultaneous first requests of a fresh peer: {n} of {} admitted, burst {b}", tasks / 2)}));
+            }
+        }
+        for (key, rid, lo, ok) in &results {
+            let hi = reached.iter().find(|(_, r, _)| r == rid).map(|(_, _, t)| t.duration_since(epoch).as_micros());
+            if *ok != hi.is_some() {
+                mismatches.push(json!({"what": format!("request {rid}: result ok={ok} but reached service={}", hi.is_some())}));
+            }
+            if let Some(hi) = hi {
+                adm.push(json!({"ev": "admit", "key": key, "lo": *lo as u64, "hi": hi as u64}));
+            }
+        }
+        adm.sort_by_key(|v| v["hi"].as_u64());
+        let n_adm = adm.len() as u64;
+        lines.extend(adm);
+        lines.push(json!({"ev": "end", "admitted": n_adm, "requests": tasks, "elapsed_us": epoch.elapsed().as_micros() as u64}));
+        evaluations += tasks;
+    }
+    // isolation in Block mode: peer 1 has requests parked over its quota (1000 s period: for ever);
+    // peer 2's requests within its own quota must get through at once all the same
+    for k in 0..a.u64("isolations", 6) {
+        run_id += 1;
+        let b = 1 + (k % 3) as u32;
+        let quota = governor::Quota::with_period(std::time::Duration::from_secs(1000)).unwrap()
+            .allow_burst(std::num::NonZeroU32::new(b).unwrap());
+        let counting = Counting::default();
+        let layer = RateLimitLayer::new(quota, RateWaitMode::Block);
+        ID_POS.store((k as usize) * 11 + 1, std::sync::atomic::Ordering::Relaxed);
+        let (parked_done, served) = rt.block_on(async {
+            let mut parked = Vec::new();
+            for i in 0..(b as u64 + 2) {
+                let mut svc = layer.layer(counting.clone());
+                parked.push(tokio::spawn(async move { svc.call(request(1000 + i, 1)).await.is_ok() }));
+            }
+            tokio::time::sleep(std::time::Duration::from_millis(50)).await;
+            let mut served = 0u64;
+            for i in 0..b as u64 {
+                let mut svc = layer.layer(counting.clone());
+                if let Ok(Ok(_)) = tokio::time::timeout(std::time::Duration::from_secs(2), svc.call(request(2000 + i, 2))).await {
+                    served += 1;
+                }
+            }
+            let done = parked.iter().filter(|h| h.is_finished()).count() as u64;
+            for h in parked {
+                h.abort();
+            }
+            (done, served)
+        });
+        evaluations += 2 * b as u64 + 2;
+        if served != b as u64 {
+            mismatches.push(json!({"what": format!("Block mode, burst {b}: peer 1 has 2 requests parked over quota; only {served} of peer 2's {b} requests (within its own quota) were admitted within 2 s")}));
+        }
+        if parked_done != b as u64 {
+            mismatches.push(json!({"what": format!("Block mode, burst {b}: {parked_done} of peer 1's {} simultaneous requests got through, quota allows exactly {b}", b + 2)}));
         }
     }
     let path = format!("{out}.ndjson");
